@@ -114,7 +114,8 @@ type Plan struct {
 	Fault   FaultKind
 	// OnlyWrites: FaultAt counts write requests only.
 	Yield bool // make every request a vsched scheduling point
-	// HideInList: keys the (cached) client's List does not show yet in this pass.
+	// HideInList: keys the cached client's List and Get do not show yet in this pass (the
+	// uncached client sees them).
 	HideInList []kmodel.Key
 	// Interfere, when set, runs just before request number InterfereAt of the pass is sent
 	// (another actor's write landing between two calls of the pass).
@@ -262,7 +263,9 @@ func (w *World) NewEnv(actor string, pass *Pass, plan *Plan) *Env {
 	cacheReader.Filter = CacheVisible
 	im := &informerMap{reader: &cacheReader, live: map[schema.GroupVersionKind]*fakeInformer{}}
 	dc := dynamiccache.NewCacheForVerif(Scheme, im, w.Refs)
-	return &Env{W: w, Client: base, Uncached: base, Cache: dc, hook: h}
+	unc := *base
+	unc.ListHide = nil
+	return &Env{W: w, Client: base, Uncached: &unc, Cache: dc, hook: h}
 }
 
 // Controller kinds.
